@@ -42,7 +42,7 @@ func c18SizeSweep(c *Ctx, up *world.Upstream) {
 			sess := &sessions.SessionState{Email: "sweep@example.com", User: "sweep", AccessToken: c02Incompressible(n, int64(ci))}
 			rec := httptest.NewRecorder()
 			req, _ := (&world.Req{Method: "GET", Target: "/", Host: k.host, HTTPS: true}).Parse()
-			if err := px.P.sessionStore.Save(rec, req, sess); err != nil {
+			if err := verifSessionStore(px.P).Save(rec, req, sess); err != nil {
 				c.Error("C18 sweep: save: %v", err)
 				return nil
 			}
